@@ -813,6 +813,34 @@ Proof.
     destruct (at_path_st path _ O (root_es s) (s_next s) (s_ranks s)) as [[[es' nx] rk]|];
       [apply with_root_d|reflexivity].
   - destruct (Nat.leb (length pt) (nranks s) && negb (Nat.eqb (length pt) 0)); reflexivity.
+  - destruct (Nat.ltb (S (length path)) (nranks s) && plain_wf (nranks s - S (length path)) t);
+      [|reflexivity].
+    destruct (fiber_at path (root_es s)) as [e|]; [|reflexivity].
+    destruct (match last_coord e with Some m => m <? c | None => true end); [|reflexivity].
+    destruct (at_path_st path _ O (root_es s) (s_next s) (s_ranks s)) as [[[es' nx] rk]|];
+      [apply with_root_d|reflexivity].
+  - destruct t as [v|l]; [reflexivity|].
+    destruct (Nat.ltb (length path) (nranks s) && plain_wf (nranks s - length path) (Node l));
+      [|reflexivity].
+    destruct (fiber_at path (root_es s)) as [e|]; [|reflexivity].
+    destruct (is_empty (s_d s) (Node l)); [reflexivity|].
+    destruct (match last_coord e, l with Some m, (c0, _) :: _ => m <? c0 | _, _ => true end);
+      [|reflexivity].
+    destruct (at_path_st path _ O (root_es s) (s_next s) (s_ranks s)) as [[[es' nx] rk]|];
+      [apply with_root_d|reflexivity].
+  - destruct (Nat.ltb (S (length path)) (nranks s) && plain_wf (nranks s - S (length path)) t);
+      [|reflexivity].
+    destruct (fiber_at path (root_es s)) as [e|]; [|reflexivity]. cbv zeta.
+    destruct (((if pos <? 0 then pos + Z.of_nat (length e) else pos) <? 0)
+              || (Z.of_nat (length e) <=? (if pos <? 0 then pos + Z.of_nat (length e) else pos)));
+      [reflexivity|].
+    destruct (at_path_st path _ O (root_es s) (s_next s) (s_ranks s)) as [[[es' nx] rk]|];
+      [apply with_root_d|reflexivity].
+  - destruct (prune (s_d s) t) as [v|l]; [reflexivity|].
+    destruct (Nat.ltb (length path) (nranks s) && plain_wf (nranks s - length path) t);
+      [|reflexivity].
+    destruct (at_path_st path _ O (root_es s) (s_next s) (s_ranks s)) as [[[es' nx] rk]|];
+      [apply with_root_d|reflexivity].
 Qed.
 
 (* ---------- evaluating the oracle's step on the shapes the model produces ---------- *)
@@ -822,7 +850,8 @@ Proof. unfold tree_of_state. rewrite V_to_state_V_state. reflexivity. Qed.
 Definition resync_op (o : op) : Prop :=
   match o with
   | OAppend _ _ _ | OSetItem _ _ _ _ | OClear _ | OUpdCoords _ _ _ _ | OUpdCoordsTbl _ _ _ _
-  | OUpdPayloads _ _ _ | OShapeRef _ _ _ _ => True
+  | OUpdPayloads _ _ _ | OShapeRef _ _ _ _
+  | OAppendFib _ _ _ | OExtend _ _ | OSetItemFib _ _ _ | OAssignFib _ _ => True
   | _ => False
   end.
 
@@ -1312,6 +1341,10 @@ Proof.
   - apply ok_OGetSP; assumption.
   - apply ok_OGetRefSP; assumption.
   - apply ok_OGetD; assumption.
+  - apply ok_resync; [exact Hs|exact I].
+  - apply ok_resync; [exact Hs|exact I].
+  - apply ok_resync; [exact Hs|exact I].
+  - apply ok_resync; [exact Hs|exact I].
 Qed.
 
 (* ---------- histories ---------- *)
